@@ -171,6 +171,66 @@ def run(ctx):
                 return None
             check_nullable(ctx, "R17.3", scope, pred, "optional parameters of %s" % cls.name)
     ctx.notes.append("R17.3: optional-None attributes over the 8 operations = %d" % n_opt)
+    # nested object parameters (a map of per-item settings): optional keys of an item are not subscripted unguarded
+    n_nested = 0
+    for nm, cls, do in named:
+        params = None
+        for c in cls.mro():
+            if "PARAMS" in c.attrs:
+                params = prog.try_const(c.attrs["PARAMS"], c.module, c)
+                break
+        for pname, pschema in (params or {}).get("properties", {}).items():
+            if not isinstance(pschema, dict):
+                continue
+            items = list((pschema.get("patternProperties") or {}).values()) + ([pschema["items"]] if isinstance(pschema.get("items"), dict) else [])
+            for item in items:
+                if not (isinstance(item, dict) and item.get("type") == "object" and "properties" in item):
+                    continue
+                optional = set(item["properties"]) - set(item.get("required", []))
+                if not optional:
+                    continue
+                for m in cls.all_methods:
+                    # variables bound to one item: `for k, v in self.<pname>.items()` / `for v in self.<pname>.values()` / `for v in self.<pname>`
+                    itemvars = set()
+                    for lp in walk_no_nested(m.node):
+                        if isinstance(lp, ast.For) and any(isinstance(x, ast.Attribute) and x.attr == pname for x in ast.walk(lp.iter)):
+                            tg = lp.target
+                            if isinstance(tg, ast.Tuple) and len(tg.elts) == 2 and isinstance(tg.elts[1], ast.Name):
+                                itemvars.add(tg.elts[1].id)
+                            elif isinstance(tg, ast.Name) and not (isinstance(lp.iter, ast.Call) and call_name(lp.iter) in ("keys",)):
+                                itemvars.add(tg.id)
+                    if not itemvars:
+                        continue
+                    vm = None
+                    for x in walk_no_nested(m.node):
+                        if isinstance(x, ast.Subscript) and isinstance(x.ctx, ast.Load) and isinstance(x.value, ast.Name) and \
+                                x.value.id in itemvars and isinstance(x.slice, ast.Constant) and x.slice.value in optional:
+                            n_nested += 1
+                            ctx.saw(m)
+                            vm = vm or view(ctx, m)
+                            key = x.slice.value
+                            # innermost statement whose own expressions (not its nested blocks) hold the subscript
+                            par, node = None, None
+                            for st in walk_no_nested(m.node):
+                                if not isinstance(st, ast.stmt):
+                                    continue
+                                heads = [st.iter, st.target] if isinstance(st, ast.For) else [st.test] if isinstance(st, (ast.If, ast.While)) else \
+                                    [i.context_expr for i in st.items] if isinstance(st, ast.With) else [] if isinstance(st, ast.Try) else [st]
+                                if any(y is x for h in heads for y in ast.walk(h)):
+                                    par = st
+                            if par is not None:
+                                node = vm.cfg.node_of(par)
+                            g = vm.guard_for(node, lambda t, key=key, v_=x.value.id: isinstance(t, ast.expr) and any(
+                                isinstance(y, ast.Compare) and isinstance(y.ops[0], ast.In) and isinstance(y.left, ast.Constant) and y.left.value == key
+                                and isinstance(y.comparators[0], ast.Name) and y.comparators[0].id == v_ for y in ast.walk(t))) if node is not None else None
+                            same_test = par is not None and isinstance(par, ast.If) and any(
+                                isinstance(y, ast.Compare) and isinstance(y.ops[0], ast.In) and isinstance(y.left, ast.Constant) and y.left.value == key
+                                for y in ast.walk(par.test))
+                            ctx.check((g is not None and g[1] is True) or same_test, "R17.3", m.qualname, x, loc(m, x),
+                                      "`%s` subscripts the optional key %r of an item of parameter %r (not in that item's `required` list): a "
+                                      "validated operation that omits it raises KeyError while running" % (norm(x), key, pname),
+                                      desc="%s: optional item key %r guarded" % (cls.name, key))
+    ctx.notes.append("R17.3: subscripts of optional keys of nested item parameters = %d" % n_nested)
 
     # ---------------- R17.4
     cli = prog.find_module("remodeling.cli.run_remodel")
